@@ -663,4 +663,49 @@ example : (match digParse exDoc with
     | .ok f => f.signals.map (fun s => (s.name, isInputTyp s, s.isInput, s.isOutput)) == [("A", false, true, true), ("Q", false, false, true)]
     | _ => false) = true := by decide
 
+
+/-! ## Empty text nodes (fix F20) -/
+
+
+theorem str_empty_of_toList (s : String) (h : s.toList.isEmpty = true) : s = "" := by
+  have : s.toList = [] := by simpa using h
+  exact String.toList_inj.mp (by simpa using this)
+
+theorem foldl_skip_empty : ∀ (l : List String) (acc : String),
+    (l.filter (fun s => !s.toList.isEmpty)).foldl (· ++ ·) acc = l.foldl (· ++ ·) acc
+  | [], _ => rfl
+  | x :: xs, acc => by
+    simp only [List.filter]
+    cases hx : x.toList.isEmpty with
+    | true =>
+      have : x = "" := str_empty_of_toList x hx
+      subst this
+      simp only [Bool.not_true, List.foldl_cons, String.append_empty]
+      exact foldl_skip_empty xs acc
+    | false =>
+      simp only [Bool.not_false, List.foldl_cons]
+      exact foldl_skip_empty xs (acc ++ x)
+
+theorem textsOf_filter_empty : ∀ cs : List Xml,
+    Xml.textsOf (cs.filter (fun c => match c with | .text s => !s.toList.isEmpty | _ => true)) =
+      (Xml.textsOf cs).filter (fun s => !s.toList.isEmpty)
+  | [] => rfl
+  | c :: cs => by
+    cases c with
+    | other => simp [List.filter, Xml.textsOf, textsOf_filter_empty cs]
+    | elem t a cs' => simp [List.filter, Xml.textsOf, textsOf_filter_empty cs]
+    | text s =>
+      simp only [List.filter]
+      cases hs : s.toList.isEmpty <;> simp [Xml.textsOf, hs, textsOf_filter_empty cs]
+
+/-- **Empty text nodes are no character data** (fix F20): removing the empty text nodes among the children of an element — what an
+empty CDATA section leaves behind — does not change its character data; in particular `<string><![CDATA[]]></string>` has none, like
+`<string></string>`. -/
+theorem C16_text_ignores_empty_nodes (t : String) (a : List (String × String)) (cs : List Xml) :
+    (Xml.elem t a (cs.filter (fun c => match c with | .text s => !s.toList.isEmpty | _ => true))).text? = (Xml.elem t a cs).text? := by
+  simp only [Xml.text?, textsOf_filter_empty, foldl_skip_empty]
+
+example : (Xml.elem "string" [] [.text ""]).text? = none ∧ (Xml.elem "string" [] []).text? = none := by decide
+
+
 end Dtr
